@@ -32,10 +32,10 @@ RULE = ("seeded random models (grammar of C01) x histories of 10-20 operations: 
         "shadowing in the history; distinct = distinct (model seed, op-kind sequence)")
 ASSUMPTIONS = ["precedence between a child space and a same-named model-level reference is not stated: only that the "
                "name denotes one of the two is checked"]
-MIN_COUNTERS = {"quick": {"walks": 8000, "space_inspections": 30000, "getattr_checks": 200000, "clash_attempts": 2500,
-                          "formula_probes": 1500, "absent_name_checks": 30000},
-                "thorough": {"walks": 250000, "space_inspections": 900000, "getattr_checks": 6000000,
-                             "clash_attempts": 80000, "formula_probes": 45000, "absent_name_checks": 900000}}
+MIN_COUNTERS = {"quick": {"walks": 4000, "space_inspections": 20000, "getattr_checks": 200000, "clash_attempts": 1500,
+                          "formula_probes": 1200, "absent_name_checks": 30000},
+                "thorough": {"walks": 120000, "space_inspections": 600000, "getattr_checks": 6000000,
+                             "clash_attempts": 45000, "formula_probes": 35000, "absent_name_checks": 900000}}
 SHARD_TIMEOUT = {"quick": 900, "thorough": 5400}
 
 CLASH_KINDS = ["new_cells_clash", "new_space_clash", "model_new_space_clash", "model_ref_clash_space",
